@@ -3,6 +3,7 @@ package props
 import (
 	"fmt"
 	"math"
+	"math/big"
 	"strconv"
 	"strings"
 	"testing"
@@ -130,7 +131,7 @@ func c14Check(c c14Case, r *ev.Rec) error {
 	} else {
 		core := c.Lit
 		if strings.HasPrefix(core, "-") {
-			neg, core = true, core[1:]
+			neg, core = true, strings.TrimLeft(core[1:], " ") // the sign is a token of its own: blanks may follow it
 		}
 		wantNum, wantOK = ref.ParseNumber(core)
 		if wantOK == ref.Accept {
@@ -295,9 +296,81 @@ func TestC14_NumbersEnum(t *testing.T) {
 		})
 }
 
+// TestC14_Boundaries: every integer around the 31/32/63/64-bit boundaries, in each base and sign, for each type and position.
+func TestC14_Boundaries(t *testing.T) {
+	ev.RunEnum(t, ev.Spec[c14Case]{ID: "C14", Name: "Boundaries",
+		Rule:  "ALL integers 2^k-2 .. 2^k+2 for k in {7, 8, 15, 16, 31, 32, 53, 62, 63, 64} and 0..2, spelled in decimal, octal (leading 0) and hexadecimal (0x and 0X, both letter cases), with and without a leading '-' (and '- ' with a space), as the default of a double, a uint64 and an int64 field and as the value of custom options of those types; same oracle as the enumerations; non-trivial = all (each is a boundary case)",
+		Check: c14Check}, true, func(yield func(c14Case) bool) {
+		var vals []*big.Int
+		for _, k := range []uint{0, 7, 8, 15, 16, 31, 32, 53, 62, 63, 64} {
+			base := new(big.Int).Lsh(big.NewInt(1), k)
+			for d := int64(-2); d <= 2; d++ {
+				v := new(big.Int).Add(base, big.NewInt(d))
+				if v.Sign() >= 0 {
+					vals = append(vals, v)
+				}
+			}
+		}
+		for _, v := range vals {
+			spell := []string{v.Text(10), "0x" + v.Text(16), "0X" + strings.ToUpper(v.Text(16))}
+			if v.Sign() > 0 {
+				spell = append(spell, "0"+v.Text(8))
+			}
+			for _, sp := range spell {
+				for _, sign := range []string{"", "-", "- "} {
+					for _, k := range []string{"double", "uint64", "int64"} {
+						for _, pos := range []string{"default", "option"} {
+							if !yield(c14Case{Kind: k, Lit: sign + sp, Pos: pos}) {
+								return
+							}
+						}
+					}
+				}
+			}
+		}
+	})
+}
+
+// TestC14_NonASCIISweep: a non-ASCII character is never an escape character and is copied as its UTF-8 bytes otherwise.
+func TestC14_NonASCIISweep(t *testing.T) {
+	ev.RunEnum(t, ev.Spec[c14Case]{ID: "C14", Name: "NonASCIISweep",
+		Rule:  "for EVERY code point U+0080..U+07FF, every code point whose low byte is printable ASCII in 11 higher rows/planes (quick) or every code point U+0800..U+FFFF (thorough), and 64 code points spread over the supplementary planes (surrogates skipped): the literal \"\\<c>\" (must be rejected: not an escape) and the literal \"<c>\" (must decode to the UTF-8 bytes of c), as a bytes default; the class aliases ASCII when a character is narrowed to 8 or 16 bits; same oracle as the enumerations",
+		Check: c14Check}, true, func(yield func(c14Case) bool) {
+		var cps []rune
+		for c := rune(0x80); c <= 0x7FF; c++ {
+			cps = append(cps, c)
+		}
+		if ev.Pick(0, 1) == 1 {
+			for c := rune(0x800); c <= 0xFFFF; c++ {
+				cps = append(cps, c)
+			}
+		} else {
+			for _, hi := range []rune{0x08, 0x1F, 0x20, 0x4E, 0xAC, 0xFF, 0x100, 0x1F6, 0x200, 0xE00, 0x10FF} {
+				for lo := rune(0x20); lo <= 0x7E; lo++ {
+					cps = append(cps, hi<<8|lo)
+				}
+			}
+		}
+		for i := rune(0); i < 64; i++ {
+			cps = append(cps, 0x10000+i*0x4101+0x5C)
+		}
+		for _, c := range cps {
+			if c >= 0xD800 && c <= 0xDFFF || c > 0x10FFFF {
+				continue
+			}
+			if !yield(c14Case{Kind: "str", Lit: "\"\\" + string(c) + "\"", Pos: "default"}) {
+				return
+			}
+			if !yield(c14Case{Kind: "str", Lit: "\"" + string(c) + "\"", Pos: "default"}) {
+				return
+			}
+		}
+	})
+}
+
 func TestC14_Long(t *testing.T) {
 	ev.Run(t, ev.Spec[c14Case]{ID: "C14", Name: "Long", Quick: 1500, Thorough: 60000,
-		Rule: "random longer literals: strings of 1-12 pieces (every simple escape, octal escapes of 1-3 digits incl. values above 0377, hex escapes of 0-3 digits, \\u and \\U escapes incl. out-of-range and truncated ones, invalid escapes, raw multi-byte characters, quotes, adjacent literals) and numbers (decimal/octal/hex integers around the 32/63/64-bit boundaries, floats with long mantissas and exponents up to +-400, malformed variants); same oracle as the enumerations",
+		Rule: "random longer literals: strings of 1-12 pieces (every simple escape, octal escapes of 1-3 digits incl. values above 0377, hex escapes of 0-3 digits, \\u and \\U escapes incl. out-of-range and truncated ones, invalid escapes incl. a backslash followed by a random non-ASCII code point, raw multi-byte characters, quotes, adjacent literals) and numbers (decimal/octal/hex integers around the 32/63/64-bit boundaries, floats with long mantissas and exponents up to +-400, malformed variants); same oracle as the enumerations",
 		Gen: func(t *rapid.T) c14Case {
 			pos := gen.Pick(t, []string{"default", "option"}, "pos")
 			if gen.Pct(t, 55, "string") {
@@ -310,6 +383,14 @@ func TestC14_Long(t *testing.T) {
 				sb.WriteString(q)
 				for i := 0; i < n; i++ {
 					p := gen.Pick(t, pieces, "piece")
+					if gen.Pct(t, 12, "unicode-escape-char") {
+						// a backslash followed by an arbitrary non-ASCII character (never an escape)
+						cp := 0x80 + gen.Uniform(t, 0x10FFFF-0x80+1, "cp")
+						if cp >= 0xD800 && cp <= 0xDFFF {
+							cp += 0x800
+						}
+						p = "\\" + string(rune(cp))
+					}
 					if p == q {
 						p = "\\" + p
 					}
